@@ -282,4 +282,30 @@ theorem lexWord_run (w : List Nat) (rest : List Nat) (hw : ∀ c ∈ w, isWordB 
   | nil => simp [lexWord, dropWhile_all isWordB w hw, takeWhile_all isWordB w hw]
   | cons c t => simp only [lexWord, takeWhile_run isWordB w c t hw (hr c t rfl), dropWhile_run isWordB w c t hw (hr c t rfl)]
 
+/-! the `@` timestamp -/
+
+theorem isDigit_46 : isDigitB 46 = false := by decide
+
+theorem pad3_digits (r : Nat) : ∀ d ∈ pad3Digits r, isDigitB d = true := by
+  intro d hd
+  simp only [pad3Digits, List.mem_cons, List.mem_nil_iff, or_false] at hd
+  rcases hd with rfl | rfl | rfl <;> simp [isDigitB] <;> omega
+
+theorem readNat_pad3 (r : Nat) (h : r < 1000) : readNat (pad3Digits r) = r := by
+  simp only [pad3Digits, readNat, List.foldl_cons, List.foldl_nil]
+  omega
+
+/-- the printed `%.3f` seconds of k ms convert back to exactly k ms, for every k -/
+theorem atMs_printMs (k : Nat) : atMs (printMs k) = some k := by
+  obtain ⟨hr, hd, _⟩ := natDigits_spec (k / 1000)
+  have htw := takeWhile_run isDigitB (natDigits (k / 1000)) 46 (pad3Digits (k % 1000)) hd isDigit_46
+  have hdw := dropWhile_run isDigitB (natDigits (k / 1000)) 46 (pad3Digits (k % 1000)) hd isDigit_46
+  have hall : (pad3Digits (k % 1000)).all isDigitB = true := List.all_eq_true.mpr (pad3_digits _)
+  have h3 : readNat (pad3Digits (k % 1000)) = k % 1000 := readNat_pad3 _ (Nat.mod_lt _ (by omega))
+  simp only [atMs, printMs, htw, hdw, hall, if_true, decMs, hr]
+  have : ((pad3Digits (k % 1000) ++ [48, 48, 48]).take 3) = pad3Digits (k % 1000) := by simp [pad3Digits]
+  rw [this, h3]
+  simp [pad3Digits]
+  omega
+
 end SH.PromLex.Num
